@@ -67,7 +67,67 @@ func histString(h []int) string {
 
 // runTestdrvHistory executes one history on a fresh testdrv pair and compares every
 // result and callback with the model.
+// c17Cfgs: what the successive listeners of one history ask for (variant v: listener id uses c17Cfgs[(id+v)%len]).
+// Variant 0 is "every listener asks for everything". A message sent while listener id is active is one that this
+// listener asked for (see c17Msg), so the lifecycle model stays "delivered exactly once".
+type c17Cfg struct {
+	sysex, clock, sense bool
+	buf                 uint32
+}
+
+var c17Cfgs = []c17Cfg{{true, true, true, 0}, {false, false, false, 0}, {true, false, true, 4096}, {true, true, false, 16}, {false, true, false, 0}}
+
+func c17CfgOf(variant, id int) c17Cfg {
+	if variant == 0 {
+		return c17Cfgs[0]
+	}
+	return c17Cfgs[(id+variant)%len(c17Cfgs)]
+}
+
+// c17Msg is the k-th message of a history: a note, or the most demanding message the active listener asked for
+// (a sysex of the size its buffer takes, a real-time byte of a class it enabled).
+func c17Msg(cfg c17Cfg, variant, k, step int) []byte {
+	note := []byte{0x90, byte(k), byte(step + 1)}
+	if variant == 0 {
+		return note
+	}
+	switch k % 3 {
+	case 0:
+		if cfg.sysex {
+			n := 1024
+			switch {
+			case cfg.buf == 16:
+				n = 16
+			case cfg.buf == 4096:
+				n = 1025 + (k*577+step*131)%3000
+			}
+			m := make([]byte, n)
+			m[0], m[n-1] = 0xF0, 0xF7
+			for j := 1; j < n-1; j++ {
+				m[j] = byte(j+k) & 0x7F
+			}
+			return m
+		}
+	case 1:
+		if cfg.clock {
+			return []byte{0xF8}
+		}
+		if cfg.sense {
+			return []byte{0xFE}
+		}
+	}
+	return note
+}
+
 func runTestdrvHistory(c *mon.Ctx, h []int, viaListenTo bool) {
+	runTestdrvHistoryV(c, h, viaListenTo, 0)
+	c17Variant++
+	runTestdrvHistoryV(c, h, viaListenTo, 1+c17Variant%4)
+}
+
+var c17Variant int
+
+func runTestdrvHistoryV(c *mon.Ctx, h []int, viaListenTo bool, variant int) {
 	drv := testdrv.New("c17")
 	ins, _ := drv.Ins()
 	outs, _ := drv.Outs()
@@ -78,6 +138,11 @@ func runTestdrvHistory(c *mon.Ctx, h []int, viaListenTo bool) {
 		level = "midi.ListenTo"
 	}
 	desc := map[string]any{"history": histString(h), "listen_via": level}
+	if variant > 0 {
+		desc["listener options"] = fmt.Sprintf("variant %d: listener id asks for c17Cfgs[(id+%d)%%%d] of %+v", variant, variant, len(c17Cfgs), c17Cfgs)
+		c.Count("testdrv_histories_with_differing_listener_options", 1)
+	}
+	var activeCfg c17Cfg
 	type deliv struct {
 		listener int
 		msg      []byte
@@ -125,16 +190,31 @@ func runTestdrvHistory(c *mon.Ctx, h []int, viaListenTo bool) {
 			m.listens++
 			id := m.listens
 			var err error
+			cfg := c17CfgOf(variant, id)
+			activeCfg = cfg
 			panicked = c.Guard("panic:testdrv", desc, func() {
 				if viaListenTo {
+					var opts []midi.Option
+					if cfg.sysex {
+						opts = append(opts, midi.UseSysEx())
+					}
+					if cfg.clock {
+						opts = append(opts, midi.UseTimeCode())
+					}
+					if cfg.sense {
+						opts = append(opts, midi.UseActiveSense())
+					}
+					if cfg.buf > 0 {
+						opts = append(opts, midi.SysExBufferSize(cfg.buf))
+					}
 					stopFn, err = midi.ListenTo(in, func(msg midi.Message, ts int32) {
 						got = append(got, deliv{id, append([]byte(nil), msg...)})
-					}, midi.UseSysEx(), midi.UseTimeCode(), midi.UseActiveSense())
+					}, opts...)
 					m.inOpen = true
 				} else {
 					stopFn, err = in.Listen(func(msg []byte, ts int32) {
 						got = append(got, deliv{id, append([]byte(nil), msg...)})
-					}, drivers.ListenConfig{SysEx: true, TimeCode: true, ActiveSense: true})
+					}, drivers.ListenConfig{SysEx: cfg.sysex, TimeCode: cfg.clock, ActiveSense: cfg.sense, SysExBufferSize: cfg.buf})
 				}
 			})
 			if panicked {
@@ -160,7 +240,10 @@ func runTestdrvHistory(c *mon.Ctx, h []int, viaListenTo bool) {
 			c.Count("testdrv_stops", 1)
 		case opSend:
 			sendID++
-			msg := []byte{0x90, byte(sendID), byte(step + 1)}
+			msg := c17Msg(activeCfg, variant, sendID, step)
+			if len(msg) > 3 {
+				c.Count("testdrv_sysex_sends", 1)
+			}
 			before := len(got)
 			var err error
 			panicked = c.Guard("panic:testdrv", desc, func() { err = out.Send(msg) })
